@@ -807,3 +807,825 @@ Proof. intros e w He. unfold idx_of. rewrite (w_index_not_set e w He). reflexivi
 
 Lemma idx_of_set : forall es w, idx_of (apply_effect (ESetIndex es) w) = es.
 Proof. intros es w. unfold idx_of. rewrite w_index_ESetIndex. reflexivity. Qed.
+
+(* ================================================================== *)
+(** * G. Every command preserves the invariant *)
+
+Ltac gsplit :=
+  lazymatch goal with
+  | |- G _ _ /\ Inv _ /\ _ => split; [exact Logic.I | split]
+  | |- G _ _ /\ Inv _ => split; [exact Logic.I | ]
+  end.
+Ltac benign_tac := gsplit; [apply inv_benign; [reflexivity | assumption] | ..].
+Ltac call_emits L := apply hoare_at with (P := fun _ : world => True); [apply L | exact Logic.I].
+
+Definition CtxOk (w : world) (x : ctx) : Prop :=
+  cfg_of (w_lcfg w) = Some (x_l x) /\ cfg_of (w_gcfg w) = Some (x_g x) /\
+  match x_headc x with
+  | Some (id, cm) => am_get (w_refs w) (w_head w) = Some id /\ get_commit (w_objs w) id = Some cm
+  | None => am_get (w_refs w) (w_head w) = None
+  end.
+
+Lemma load_ctx_spec : forall w, hoare Inv G (eq w) load_ctx (fun x w' => w' = w /\ CtxOk w x).
+Proof.
+  intro w. unfold load_ctx. hsteps.
+  - split; [reflexivity|]. unfold CtxOk. cbn [x_l x_g x_headc]. auto.
+  - split; [reflexivity|]. unfold CtxOk. cbn [x_l x_g x_headc]. auto.
+Qed.
+
+Lemma add_file_tail : forall w p a,
+  am_get (w_files w) p = Some a ->
+  hoare Inv G (eq w)
+    (put_obj KBlob a;;;
+     emit (ESetIndex match idx_update (idx_of w) (obj_id KBlob a) p with
+                     | Some i => i
+                     | None => idx_of w
+                     end)) (fun _ _ => True).
+Proof.
+  intros w p a Hf. hinline. hsteps.
+  - gsplit. apply inv_put; [discriminate | assumption].
+  - gsplit; [|exact Logic.I]. apply inv_set_index; [assumption|].
+    intros _ (Hwt & [Hc Hv] & _).
+    rewrite idx_of_not_set in Hc, Hv by reflexivity.
+    unfold WtValid in Hwt. rewrite w_files_EPutObj in Hwt.
+    destruct (idx_update (idx_of w) (obj_id KBlob a) p) as [i|] eqn:Eu; [|split; assumption].
+    apply (idx_update_good _ _ _ _ Hc Hv (sha1_length _) (Hwt p a Hf) Eu).
+Qed.
+
+Lemma add_file_emits : forall p, emits Inv G (add_file p).
+Proof.
+  intro p. hinline. hsteps; try exact Logic.I; apply (add_file_tail w p a); assumption.
+Qed.
+
+Lemma set_index_delete : forall w p i,
+  idx_delete (idx_of w) p = Some i -> Inv w -> Inv (apply_effect (ESetIndex i) w).
+Proof.
+  intros w p i Hd Hi. apply inv_set_index; [exact Hi|].
+  intros _ (_ & [Hc Hv] & _). apply (idx_delete_good _ _ _ Hc Hv Hd).
+Qed.
+
+Lemma cmd_add_emits : forall c args, emits Inv G (cmd_add c args).
+Proof.
+  intros c args. unfold cmd_add.
+  apply emits_bind_guard; intros _.
+  apply emits_bind. { apply emits_bind_getw. intros w Hi. hsteps. exact Logic.I. } intros _.
+  apply emits_bind; [|intros; apply emits_ret].
+  apply emits_iterM. intros a _. apply emits_bind_getw. intros w Hi.
+  destruct (ignored w (x_pats c) a); [hsteps; exact Logic.I|].
+  destruct (wt_stat w a).
+  - call_emits add_file_emits.
+  - apply hoare_at with (P := fun _ : world => True); [|exact Logic.I].
+    apply emits_iterM. intros f _. apply emits_bind_getw. intros w' _.
+    destruct (ignored w' (x_pats c) f); [hsteps; exact Logic.I | call_emits add_file_emits].
+  - hsteps. gsplit; [|exact Logic.I]. apply (set_index_delete w a); assumption.
+  - hsteps. gsplit; [|exact Logic.I]. apply (set_index_delete w a); assumption.
+Qed.
+
+Lemma rm_one_emits : forall p, emits Inv G (rm_one p).
+Proof.
+  intro p. hinline. hsteps; try benign_tac; try exact Logic.I;
+    (gsplit; [|exact Logic.I]);
+    match goal with Hd : idx_delete (idx_of ?w) _ = Some _ |- _ => apply (set_index_delete w p); assumption end.
+Qed.
+
+Lemma cmd_rm_emits : forall args, emits Inv G (cmd_rm args).
+Proof.
+  intros args. unfold cmd_rm.
+  apply emits_bind. { apply emits_bind_getw. intros w Hi. hsteps. exact Logic.I. } intros _.
+  apply emits_bind; [|intros; apply emits_ret].
+  apply emits_iterM. intros a _. apply emits_bind_getw. intros w Hi.
+  destruct (tracked w a); [call_emits rm_one_emits|].
+  apply hoare_at with (P := fun _ : world => True); [|exact Logic.I].
+  apply emits_iterM. intros f _. apply rm_one_emits.
+Qed.
+
+Lemma cmd_init_emits : emits Inv G cmd_init.
+Proof. hinline. hsteps; try benign_tac; exact Logic.I. Qed.
+
+Lemma cmd_config_emits : forall c global args, emits Inv G (cmd_config c global args).
+Proof.
+  intros c global args. hinline. hsteps; try exact Logic.I; gsplit.
+  - apply inv_set_gcfg; [|assumption]. intros c0 Hc0. cbn in Hc0. injection Hc0 as <-. constructor.
+  - apply inv_set_gcfg; [apply cfg_written_nl | assumption].
+  - apply inv_set_gcfg; [apply cfg_written_nl | assumption].
+  - apply inv_set_lcfg. assumption.
+Qed.
+
+Lemma head_update_emits : forall name, emits Inv G (head_update name).
+Proof. intro name. hinline. hsteps; try benign_tac; exact Logic.I. Qed.
+
+Lemma cmd_branch_emits : forall e c args lst rename delete, emits Inv G (cmd_branch e c args lst rename delete).
+Proof. intros. hinline. hsteps; try benign_tac; try exact Logic.I. Qed.
+
+Lemma cmd_switch_emits : forall e c args create, emits Inv G (cmd_switch e c args create).
+Proof.
+  intros. hinline. repeat (hsteps; try unfold head_update); try benign_tac; try exact Logic.I.
+Qed.
+
+Lemma cmd_update_ref_emits' : forall args, emits Inv G (cmd_update_ref args).
+Proof.
+  intros. hinline. repeat (hsteps; try unfold head_update); try benign_tac; try exact Logic.I.
+Qed.
+
+Lemma head_tree_nodes_emits : forall c, emits Inv G (head_tree_nodes c).
+Proof. intros. hinline. hsteps; exact Logic.I. Qed.
+
+Lemma cmd_status_emits : forall c, emits Inv G (cmd_status c).
+Proof.
+  intros. unfold cmd_status. apply emits_bind_getw. intros w Hi.
+  apply at_bind_emits; [apply head_tree_nodes_emits|]. intros ns w' Hi'. hsteps. exact Logic.I.
+Qed.
+
+Lemma cmd_log_emits : forall c n, emits Inv G (cmd_log c n).
+Proof. intros. hinline. hsteps; exact Logic.I. Qed.
+
+Lemma cmd_reflog_emits : emits Inv G cmd_reflog.
+Proof. hinline. hsteps; exact Logic.I. Qed.
+
+Lemma cmd_cat_file_emits : forall t p args, emits Inv G (cmd_cat_file t p args).
+Proof. intros. hinline. hsteps; exact Logic.I. Qed.
+
+Lemma cmd_ls_files_emits : forall s, emits Inv G (cmd_ls_files s).
+Proof. intros. hinline. hsteps; exact Logic.I. Qed.
+
+Lemma cmd_hash_object_emits : forall args, emits Inv G (cmd_hash_object args).
+Proof.
+  intros. unfold cmd_hash_object. apply emits_bind_getw. intros w Hi.
+  apply hoare_at with (P := fun _ : world => True); [|exact Logic.I]. clear Hi.
+  induction args as [|a r IH]; [apply emits_ret|].
+  destruct (wt_stat w a); try apply emits_fail.
+  apply emits_bind_of_opt. intros d _. apply emits_bind; [exact IH|]. intros rest. apply emits_ret.
+Qed.
+
+Lemma cmd_rev_parse_emits : forall args, emits Inv G (cmd_rev_parse args).
+Proof.
+  intros. unfold cmd_rev_parse. apply emits_bind_getw. intros w Hi.
+  apply hoare_at with (P := fun _ : world => True); [|exact Logic.I]. clear Hi.
+  induction args as [|a r IH]; [apply emits_ret|].
+  cbv zeta. apply emits_bind_of_opt. intros d _. apply emits_bind; [exact IH|]. intros rest. apply emits_ret.
+Qed.
+
+Lemma cmd_write_tree_emits' : emits Inv G cmd_write_tree.
+Proof.
+  hinline. hsteps.
+  apply at_bind_iterM with (J := fun _ => True).
+  - auto.
+  - intros d w' _ _ _. cbv beta. hinline. hsteps; auto.
+    gsplit. apply inv_put; [discriminate | assumption].
+  - intros w' _ _. hsteps. auto.
+Qed.
+
+Lemma wt_put_spec : forall (P : Prop) p data w,
+  (Live w -> P) -> (Live w -> valid_path p) ->
+  hoare Inv G (eq w) (wt_put p data) (fun _ w' => Live w' -> P).
+Proof.
+  intros P p data w HP Hv. unfold wt_put. hsteps; try benign_tac.
+  all: gsplit.
+  all: try (apply inv_write_file; [assumption|]; intros HL _; apply Hv).
+  all: try (intro HL; apply HP).
+  all: repeat (first [assumption | apply Live_effect_before in HL]).
+Qed.
+
+Lemma wt_put_emits_at : forall p data w,
+  (Live w -> valid_path p) -> hoare Inv G (eq w) (wt_put p data) (fun _ _ => True).
+Proof.
+  intros p data w Hv.
+  apply hoare_conseq with (P := eq w) (Q := fun (_ : unit) w' => Live w' -> True); auto.
+  apply wt_put_spec; auto.
+Qed.
+
+Lemma restore_wd_emits : forall p, emits Inv G (restore_wd p).
+Proof.
+  intro p. hinline. hsteps. apply wt_put_emits_at.
+  intro HL. destruct (H HL) as (_ & [_ Hv] & _).
+  match goal with Hg : get_entry _ _ = Some _ |- _ => destruct (get_entry_In _ _ _ _ Hg) as [Hin Hp] end.
+  rewrite <- Hp. apply (Forall_valid_In _ _ Hv Hin).
+Qed.
+
+(* what the commands know about the nodes of a snapshot they walked *)
+Definition NsGood (ns : list node) : Prop :=
+  exists its, ns = map node_of its /\ Forall wf_item its /\
+              Canonical (flat_items [] its) /\ Forall valid_entry (flat_items [] its).
+
+Lemma walked_NsGood : forall st id c d ns,
+  SnapshotsGood' st -> get_commit st id = Some c ->
+  get_kind st KTree (c_tree c) = Some d -> walk_tree (S (length st)) st d = Some ns ->
+  NsGood ns.
+Proof.
+  intros st id c d ns Hs Hc Hk Hw. destruct (Hs id c Hc) as (d' & its & Hk' & Hw' & Hrest).
+  rewrite Hk in Hk'. injection Hk' as <-. rewrite Hw in Hw'. injection Hw' as ->.
+  exists its. auto.
+Qed.
+
+Lemma NsGood_flatten : forall ns, NsGood ns -> Canonical (flatten [] ns) /\ Forall valid_entry (flatten [] ns).
+Proof.
+  intros ns (its & -> & Hwf & Hc & Hv). rewrite (flatten_items its Hwf). auto.
+Qed.
+
+Lemma NsGood_leaf : forall ns p n, NsGood ns -> leaf_node ns p = Some n -> length (n_id n) = 20 /\ valid_path p.
+Proof.
+  intros ns p n (its & -> & Hwf & Hc & Hv) Hl. unfold leaf_node in Hl.
+  destruct (get_node (map node_of its) p) as [n0|] eqn:Eg; [|discriminate Hl].
+  destruct (is_leaf n0) eqn:El; [|discriminate Hl]. injection Hl as <-.
+  pose proof (get_node_leaf_id its p n0 Hwf Eg El) as Hin.
+  exact (Forall_valid_In _ _ Hv Hin).
+Qed.
+
+Lemma restore_index_spec : forall ns p w,
+  (Live w -> NsGood ns) ->
+  hoare Inv G (eq w) (restore_index ns p) (fun _ w' => Live w' -> NsGood ns).
+Proof.
+  intros ns p w Hns. hinline. hsteps; try exact Hns.
+  all: gsplit; [|intro HL; apply Hns; exact (Live_effect_before _ _ HL)].
+  - apply inv_set_index; [assumption|]. intros HL (_ & [Hc Hv] & _).
+    destruct (NsGood_leaf ns p n (Hns HL) Heqo0) as [Hid Hp].
+    apply (idx_update_good _ _ _ _ Hc Hv Hid Hp Heqo1).
+  - apply (set_index_delete w p); assumption.
+  - apply inv_set_index; [assumption|]. intros HL (_ & [Hc Hv] & _).
+    destruct (NsGood_leaf ns p n (Hns HL) Heqo0) as [Hid Hp].
+    apply (idx_update_good _ _ _ _ Hc Hv Hid Hp Heqo1).
+Qed.
+
+Lemma head_tree_nodes_spec : forall c w,
+  CtxOk w c -> x_headc c <> None ->
+  hoare Inv G (eq w) (head_tree_nodes c) (fun ns w' => w' = w /\ (Live w -> NsGood ns)).
+Proof.
+  intros c w (_ & _ & Hh) Hne. unfold head_tree_nodes. hsteps.
+  - split; [reflexivity|]. intro HL.
+    match goal with Hi : Inv w |- _ => destruct (Hi HL) as (_ & _ & Hs & _) end.
+    destruct Hh as [_ Hc].
+    match goal with Hk : get_kind _ _ _ = Some _, Hw : walk_tree _ _ _ = Some _ |- _ =>
+      apply (walked_NsGood _ _ _ _ _ Hs Hc Hk Hw) end.
+  - contradiction.
+Qed.
+
+Lemma cmd_restore_spec : forall c staged args w,
+  CtxOk w c -> hoare Inv G (eq w) (cmd_restore c staged args) (fun _ _ => True).
+Proof.
+  intros c staged args w Hctx. unfold cmd_restore. hsteps.
+  - apply at_bind_call with (P := eq w) (R := fun ns w' => w' = w /\ (Live w -> NsGood ns)).
+    + apply head_tree_nodes_spec; [exact Hctx | congruence].
+    + reflexivity.
+    + intros ns w' _ [-> Hns]. hsteps.
+      apply at_bind_iterM with (J := fun w' => Live w' -> NsGood ns).
+      * intros _. exact Hns.
+      * intros t w' _ _ Hj. apply at_iterM with (J := fun w' => Live w' -> NsGood ns).
+        -- intros _. exact Hj.
+        -- intros q w'' _ _ Hj'. apply restore_index_spec. exact Hj'.
+        -- auto.
+      * intros w' _ _. hsteps. exact Logic.I.
+  - apply at_bind_iterM with (J := fun _ => True).
+    + auto.
+    + intros t w' _ _ _. apply at_iterM with (J := fun _ => True); auto.
+      intros q w'' _ _ _. call_emits restore_wd_emits.
+    + intros w' _ _. hsteps. exact Logic.I.
+Qed.
+
+Lemma cmd_reset_emits : forall e c soft mixed hard args, emits Inv G (cmd_reset e c soft mixed hard args).
+Proof.
+  intros. hinline. hsteps; try benign_tac; try exact Logic.I.
+  - gsplit. apply inv_set_index; [assumption|]. intros _ (_ & _ & Hs & _).
+    autorewrite with wfields in Hs.
+    match goal with
+      Hc : get_commit _ _ = Some _, Hk : get_kind _ _ _ = Some _, Hw : walk_tree _ _ _ = Some _ |- _ =>
+      apply NsGood_flatten; apply (walked_NsGood _ _ _ _ _ Hs Hc Hk Hw) end.
+  - match goal with |- hoare _ _ _ (bind (iterM _ ?es) _) _ =>
+      apply at_bind_iterM with (J := fun w' => Live w' -> Forall valid_entry es) end.
+    + intros Hi HL. destruct (Hi HL) as (_ & [_ Hv] & _). rewrite idx_of_set in Hv. exact Hv.
+    + intros en w' Hin _ Hj. hsteps. apply wt_put_spec; [exact Hj|].
+      intro HL. apply (Forall_valid_In _ _ (Hj HL) Hin).
+    + intros w' _ _. hsteps. exact Logic.I.
+Qed.
+
+(* ---------- commit ---------- *)
+Definition put_tree_eff (d : bytes) : effect := EPutObj (obj_id KTree d) (payload KTree d).
+
+Lemma put_trees_spec : forall l w,
+  hoare Inv G (eq w) (iterM (fun d => put_obj KTree d ;;; ret tt) l)
+        (fun _ w' => w' = apply_effects (map put_tree_eff l) w).
+Proof.
+  induction l as [|d l IH]; intro w; cbn [iterM map].
+  - hsteps. reflexivity.
+  - unfold put_obj at 1. hsteps.
+    + gsplit. apply inv_put; [discriminate | assumption].
+    + eapply hoare_conseq; [apply IH | intros ? _ <-; reflexivity |].
+      intros [] w' _ ->. reflexivity.
+Qed.
+
+Lemma puts_frame : forall (T : Type) (f : world -> T),
+  (forall i p w, f (apply_effect (EPutObj i p) w) = f w) ->
+  forall l w, f (apply_effects (map put_tree_eff l) w) = f w.
+Proof.
+  intros T f Hf. induction l as [|d l IH]; intro w; [reflexivity|].
+  cbn [map]. rewrite apply_effects_cons, IH. apply Hf.
+Qed.
+
+Lemma puts_lookup : forall l w d,
+  w_coll (apply_effects (map put_tree_eff l) w) = false -> In d l ->
+  st_lookup (w_objs (apply_effects (map put_tree_eff l) w)) (obj_id KTree d) = Some (payload KTree d).
+Proof.
+  induction l as [|a l IH]; intros w d Hc Hin; [destruct Hin|].
+  cbn [map] in *. rewrite apply_effects_cons in *. destruct Hin as [->|Hin].
+  - apply trace_store_grows; [exact Hc|]. unfold put_tree_eff. rewrite w_objs_EPutObj.
+    apply st_lookup_set_same.
+  - apply IH; assumption.
+Qed.
+
+Lemma payload_len : forall k d, (lenN d <= lenN (payload k d))%N.
+Proof. intros k d. unfold payload, lenN. rewrite app_length. lia. Qed.
+
+(* reading back the tree written from a good staging area *)
+Lemma commit_tree_reads : forall es root subs st2,
+  Forall valid_entry es -> write_tree_top es = Some (root, subs) ->
+  (forall d, In d (subs ++ [root]) -> st_lookup st2 (obj_id KTree d) = Some (payload KTree d)) ->
+  SmallStore st2 ->
+  exists its, get_kind st2 KTree (obj_id KTree root) = Some root /\
+     walk_tree (S (length st2)) st2 root = Some (map node_of its) /\
+     Forall wf_item its /\ flat_items [] its = es.
+Proof.
+  intros es root subs st2 Hv Hw Hst Hsm.
+  destruct (write_tree_top_inv es root subs Hw) as (its & Hg & -> & ->).
+  unfold group_top in Hg.
+  pose proof (group_wf bytes_eqb_eq _ es its Hv Hg) as Hwf.
+  pose proof (group_flat bytes_eqb_eq _ es its Hv Hg) as Hfl.
+  assert (HG : Good st2 (subsl its ++ [ser its])).
+  { intros d Hd. split; [apply Hst; exact Hd|].
+    pose proof (Hsm _ _ (Hst d Hd)) as Hp. pose proof (payload_len KTree d). lia. }
+  assert (HG' : Good st2 (subsl its)).
+  { apply (Good_incl st2 _ _ (incl_appl _ (incl_refl _)) HG). }
+  pose proof (depth_le_store payload_roundtrip bytes_eqb_eq st2 its Hwf HG') as Hdep.
+  exists its. split.
+  - apply (get_kind_good payload_roundtrip bytes_eqb_eq st2 _ (ser its) HG).
+    apply in_or_app. right. left. reflexivity.
+  - split; [|auto]. apply (walk_items payload_roundtrip bytes_eqb_eq); [lia | exact Hwf | exact HG'].
+Qed.
+
+Definition commit_parent (w : world) : option bytes :=
+  match am_get (w_refs w) (w_head w) with Some id => Some (hex id) | None => None end.
+Definition commit_sign (e : env) (c : ctx) : bytes :=
+  sign_string (user_name (x_l c) (x_g c)) (user_email (x_l c) (x_g c)) (e_time e) (e_off e).
+Definition commit_data (e : env) (c : ctx) (msg : bytes) (w : world) (root : bytes) : bytes :=
+  commit_text (obj_id KTree root) (commit_parent w) (commit_sign e c) (commit_sign e c) msg.
+
+Lemma do_commit_core : forall e c msg w root subs c0,
+  let data := commit_data e c msg w root in
+  let w1 := apply_effects (map put_tree_eff (subs ++ [root])) w in
+  let w2 := apply_effect (EPutObj (obj_id KCommit data) (payload KCommit data)) w1 in
+  IndexGood w -> cfg_nl (x_l c) -> cfg_nl (x_g c) ->
+  write_tree_top (idx_of w) = Some (root, subs) -> parse_commit data = Some c0 ->
+  Live w2 ->
+  snap_ok (w_objs w2) c0 /\ snapshot (w_objs w2) (obj_id KCommit data) = Some (idx_of w).
+Proof.
+  intros e c msg w root subs c0 data w1 w2 [Hcan Hval] Hl Hg Hw Hp HL.
+  assert (Htree : c_tree c0 = obj_id KTree root).
+  { assert (Hs : ~ In c_nl (commit_sign e c)).
+    { apply sign_string_nl; [apply user_name_nl | apply user_email_nl]; assumption. }
+    unfold data, commit_data, commit_parent in Hp.
+    destruct (am_get (w_refs w) (w_head w)) as [hid|].
+    - apply (parse_commit_tree _ (Some hid) _ _ _ _ (sha1_length _) Hs Hs Hp).
+    - apply (parse_commit_tree _ None _ _ _ _ (sha1_length _) Hs Hs Hp). }
+  pose proof (Live_effect_before _ _ HL) as [Hc1 _]. fold w1 in Hc1.
+  destruct HL as [Hc2 Hsm].
+  assert (Hst : forall d, In d (subs ++ [root]) ->
+                st_lookup (w_objs w2) (obj_id KTree d) = Some (payload KTree d)).
+  { intros d Hd. unfold w2. rewrite w_objs_EPutObj.
+    apply st_set_keeps; [exact (put_coll_false _ _ _ Hc2)|].
+    apply puts_lookup; assumption. }
+  destruct (commit_tree_reads _ _ _ _ Hval Hw Hst Hsm) as (its & Hk & Hwk & Hwf & Hfl).
+  assert (Hgc : get_commit (w_objs w2) (obj_id KCommit data) = Some c0).
+  { unfold get_commit, get_kind. unfold w2 at 1. rewrite w_objs_EPutObj, get_put.
+    - cbn [kind_eqb]. exact Hp.
+    - assert (Hlk : st_lookup (w_objs w2) (obj_id KCommit data) = Some (payload KCommit data)).
+      { unfold w2. rewrite w_objs_EPutObj. apply st_lookup_set_same. }
+      pose proof (Hsm _ _ Hlk). pose proof (payload_len KCommit data). lia. }
+  split.
+  - exists root, its. rewrite Htree, Hfl. auto.
+  - unfold snapshot. rewrite Hgc, Htree, Hk, Hwk, (flatten_items its Hwf). f_equal. exact Hfl.
+Qed.
+
+Lemma premises_from : forall c w w',
+  CtxOk w c -> w_index w' = w_index w -> w_lcfg w' = w_lcfg w -> w_gcfg w' = w_gcfg w ->
+  GoodW w' -> IndexGood w /\ cfg_nl (x_l c) /\ cfg_nl (x_g c).
+Proof.
+  intros c w w' (Hl & Hg & _) Ei El Eg (_ & Hix & _ & [Hcl Hcg]).
+  unfold IndexGood, idx_of in *. rewrite Ei in Hix. rewrite El in Hcl. rewrite Eg in Hcg.
+  split; [exact Hix|]. split; [apply Hcl; exact Hl | apply Hcg; exact Hg].
+Qed.
+
+(* after a successful commit: the new HEAD commit's snapshot is the staging
+   area the commit was made from, and the staging area is untouched *)
+Definition commit_post (w w' : world) : Prop :=
+  Live w' -> exists cid, am_get (w_refs w') (w_head w') = Some cid /\
+                         snapshot (w_objs w') cid = Some (idx_of w) /\ idx_of w' = idx_of w.
+
+Lemma commit_post_final : forall e c msg w root subs c0 wp,
+  let data := commit_data e c msg w root in
+  let w1 := apply_effects (map put_tree_eff (subs ++ [root])) w in
+  let w2 := apply_effect (EPutObj (obj_id KCommit data) (payload KCommit data)) w1 in
+  let wf := apply_effect (ESetHead (w_head w)) wp in
+  CtxOk w c -> write_tree_top (idx_of w) = Some (root, subs) -> parse_commit data = Some c0 ->
+  Inv wp -> (Live wp -> Live w2) ->
+  w_refs wp = am_set (w_refs w2) (w_head w) (obj_id KCommit data) ->
+  w_objs wp = w_objs w2 -> w_index wp = w_index w2 -> w_lcfg wp = w_lcfg w2 -> w_gcfg wp = w_gcfg w2 ->
+  commit_post w wf.
+Proof.
+  intros e c msg w root subs c0 wp data w1 w2 wf Hctx Hw Hp Hi HL2 Er Eo Ei El Eg HL.
+  apply Live_effect_before in HL. pose proof (Hi HL) as Hg.
+  assert (Ei2 : w_index w2 = w_index w).
+  { unfold w2. rewrite w_index_EPutObj. apply (puts_frame _ w_index w_index_EPutObj). }
+  assert (El2 : w_lcfg w2 = w_lcfg w).
+  { unfold w2. rewrite w_lcfg_EPutObj. apply (puts_frame _ w_lcfg w_lcfg_EPutObj). }
+  assert (Eg2 : w_gcfg w2 = w_gcfg w).
+  { unfold w2. rewrite w_gcfg_EPutObj. apply (puts_frame _ w_gcfg w_gcfg_EPutObj). }
+  destruct (premises_from c w wp Hctx) as (Hix & Hcl & Hcg); try congruence.
+  destruct (do_commit_core e c msg w root subs c0 Hix Hcl Hcg Hw Hp (HL2 HL)) as [_ Hsn].
+  exists (obj_id KCommit data). unfold wf.
+  rewrite w_refs_ESetHead, w_head_ESetHead, w_objs_ESetHead. split; [|split].
+  - rewrite Er. apply am_get_set_same.
+  - rewrite Eo. exact Hsn.
+  - unfold idx_of. rewrite w_index_ESetHead, Ei, Ei2. reflexivity.
+Qed.
+
+Lemma do_commit_spec : forall e c msg w,
+  CtxOk w c -> hoare Inv G (eq w) (do_commit e c msg) (fun _ w' => commit_post w w').
+Proof.
+  intros e c msg w Hctx. unfold do_commit. hsteps.
+  apply at_bind_call with (P := eq w)
+    (R := fun _ w' => w' = apply_effects (map put_tree_eff (snd a ++ [fst a])) w);
+    [apply put_trees_spec | reflexivity |].
+  intros [] w1 _ ->. destruct a as [root subs]. cbn [fst snd] in *.
+  repeat (hsteps; try unfold put_obj); try benign_tac.
+  all: fold (commit_parent w) in *; fold (commit_sign e c) in *; fold (commit_data e c msg w root) in *.
+  - gsplit. apply inv_put_commit; [assumption|]. intros HL Hg c0 Hp0.
+    destruct (premises_from c w _ Hctx
+                (puts_frame _ w_index w_index_EPutObj _ _)
+                (puts_frame _ w_lcfg w_lcfg_EPutObj _ _)
+                (puts_frame _ w_gcfg w_gcfg_EPutObj _ _) Hg) as (Hix & Hcl & Hcg).
+    match goal with Hw : write_tree_top _ = Some _ |- _ =>
+      exact (proj1 (do_commit_core e c msg w root subs c0 Hix Hcl Hcg Hw Hp0 HL)) end.
+  - match goal with Hw : write_tree_top _ = Some _, Hp : parse_commit _ = Some _ |- _ =>
+      apply (commit_post_final e c msg w root subs _ _ Hctx Hw Hp) end;
+      try assumption; try (autorewrite with wfields; reflexivity).
+    intro HL. do 3 apply Live_effect_before in HL. exact HL.
+  - match goal with Hw : write_tree_top _ = Some _, Hp : parse_commit _ = Some _ |- _ =>
+      apply (commit_post_final e c msg w root subs _ _ Hctx Hw Hp) end;
+      try assumption; try (autorewrite with wfields; reflexivity).
+    intro HL. do 3 apply Live_effect_before in HL. exact HL.
+Qed.
+
+Lemma cmd_commit_spec : forall e c msg w,
+  CtxOk w c -> hoare Inv G (eq w) (cmd_commit e c msg) (fun _ w' => commit_post w w').
+Proof.
+  intros e c msg w Hctx. unfold cmd_commit. hsteps.
+  - apply at_bind_call with (P := eq w) (R := fun _ w' => commit_post w w');
+      [apply do_commit_spec; exact Hctx | reflexivity |].
+    intros [] w' _ Hp. hsteps. exact Hp.
+  - apply at_bind_call with (P := eq w) (R := fun ns w' => w' = w /\ (Live w -> NsGood ns)).
+    + apply head_tree_nodes_spec; [exact Hctx | congruence].
+    + reflexivity.
+    + intros ns w' _ [-> _]. hsteps.
+      apply at_bind_call with (P := eq w) (R := fun _ w' => commit_post w w');
+        [apply do_commit_spec; exact Hctx | reflexivity |].
+      intros [] w' _ Hp. hsteps. exact Hp.
+Qed.
+
+Lemma run_cmd_emits : forall e c, emits Inv G (run_cmd e c).
+Proof.
+  intros e c. unfold run_cmd. apply emits_bind_getw. intros w Hi.
+  destruct c; [call_emits cmd_init_emits | ..];
+    (hstep;
+     apply at_bind_call with (P := eq w) (R := fun x w' => w' = w /\ CtxOk w x);
+       [apply load_ctx_spec | reflexivity |]; intros x w' _ [-> Hctx]).
+  - call_emits cmd_config_emits.
+  - call_emits cmd_add_emits.
+  - call_emits cmd_rm_emits.
+  - eapply hoare_conseq; [apply (cmd_commit_spec e x msg w Hctx) | auto | auto].
+  - call_emits cmd_status_emits.
+  - call_emits cmd_branch_emits.
+  - call_emits cmd_switch_emits.
+  - call_emits cmd_reset_emits.
+  - apply cmd_restore_spec. exact Hctx.
+  - call_emits cmd_update_ref_emits'.
+  - call_emits cmd_log_emits.
+  - call_emits cmd_reflog_emits.
+  - call_emits cmd_cat_file_emits.
+  - call_emits cmd_hash_object_emits.
+  - call_emits cmd_ls_files_emits.
+  - call_emits cmd_rev_parse_emits.
+  - call_emits cmd_write_tree_emits'.
+Qed.
+
+(* ================================================================== *)
+(** * H. Histories *)
+
+Lemma GoodW_edit : forall u w, edit_ok u -> GoodW w -> GoodW (apply_edit u w).
+Proof.
+  intros u w Hok (Hwt & Hix & Hsn & [Hcl Hcg]).
+  split; [apply WtValid_edit; assumption|].
+  split; [unfold IndexGood, idx_of in *; rewrite w_index_apply_edit; exact Hix|].
+  split; [rewrite w_objs_apply_edit; exact Hsn|].
+  unfold CfgNl. rewrite w_lcfg_apply_edit, w_gcfg_apply_edit. split; assumption.
+Qed.
+
+Lemma Inv_edit : forall u w, edit_ok u -> Inv w -> Inv (apply_edit u w).
+Proof.
+  intros u w Hok Hi [Hc Hs]. rewrite w_coll_apply_edit in Hc. rewrite w_objs_apply_edit in Hs.
+  apply GoodW_edit; [exact Hok|]. apply Hi. split; assumption.
+Qed.
+
+Theorem step_Inv : forall a w, action_ok a -> Inv w -> Inv (step_w a w).
+Proof.
+  intros [e c|u] w Hok Hi; unfold step_w; cbn [step].
+  - destruct (run_m (run_cmd e c) w) as [[r w'] tr] eqn:Erun.
+    destruct (emits_sound Inv G _ _ _ _ _ _ (run_cmd_emits e c) Hi Erun) as (Hi' & _).
+    destruct r; exact Hi'.
+  - cbn [fst]. apply Inv_edit; assumption.
+Qed.
+
+Theorem run_Inv : forall h w, Forall action_ok h -> Inv w -> Inv (run h w).
+Proof.
+  induction h as [|a h IH]; intros w Hall Hi; [exact Hi|].
+  inversion Hall as [|? ? Ha Hh]; subst. rewrite run_cons. apply IH; [exact Hh|].
+  apply step_Inv; assumption.
+Qed.
+
+Lemma GoodW_empty : GoodW w_empty.
+Proof.
+  split; [intros p d H; discriminate H|].
+  split; [split; [apply Canonical_nil | constructor]|].
+  split; [intros id c H; discriminate H|].
+  split; intros c H; cbn in H; injection H as <-; constructor.
+Qed.
+
+(** ** 1. C06-T2: the staging area after every history *)
+
+(* one step; [SnapshotsGood'] is the local strengthening of [SnapshotsGood],
+   [CfgNl] (no newline in a configuration value) and [SmallStore] (no object
+   file of 2^63 bytes or more) are carried *)
+Theorem good_step : forall a w,
+  action_ok a -> GoodW w ->
+  w_coll (step_w a w) = false -> SmallStore (w_objs (step_w a w)) -> GoodW (step_w a w).
+Proof.
+  intros a w Hok Hg Hc Hs. apply (step_Inv a w Hok (GoodW_Inv w Hg)). split; assumption.
+Qed.
+
+Theorem index_good_step : forall a w,
+  action_ok a -> WtValid w -> IndexGood w -> SnapshotsGood' (w_objs w) -> CfgNl w ->
+  w_coll (step_w a w) = false -> SmallStore (w_objs (step_w a w)) ->
+  IndexGood (step_w a w).
+Proof.
+  intros a w Hok H1 H2 H3 H4 Hc Hs.
+  apply (good_step a w Hok); [repeat split; try assumption; apply H2 || apply H4 | exact Hc | exact Hs].
+Qed.
+
+Theorem good_run_strong : forall h,
+  Forall action_ok h ->
+  w_coll (run h w_empty) = false -> SmallStore (w_objs (run h w_empty)) ->
+  GoodW (run h w_empty).
+Proof.
+  intros h Hall Hc Hs. apply (run_Inv h w_empty Hall (GoodW_Inv _ GoodW_empty)). split; assumption.
+Qed.
+
+Theorem good_run : forall h,
+  Forall action_ok h ->
+  w_coll (run h w_empty) = false -> SmallStore (w_objs (run h w_empty)) ->
+  WtValid (run h w_empty) /\ IndexGood (run h w_empty) /\ SnapshotsGood (w_objs (run h w_empty)).
+Proof.
+  intros h Hall Hc Hs. destruct (good_run_strong h Hall Hc Hs) as (H1 & H2 & H3 & _).
+  split; [exact H1|]. split; [exact H2 | apply SnapshotsGood'_weaken; exact H3].
+Qed.
+
+Corollary reachable_good : forall w,
+  Reachable w -> w_coll w = false -> SmallStore (w_objs w) -> GoodW w.
+Proof. intros w (h & Hall & ->) Hc Hs. apply good_run_strong; assumption. Qed.
+
+(* the property as stated: strictly ascending paths, hence duplicate-free *)
+Corollary staging_area_sorted : forall w,
+  Reachable w -> w_coll w = false -> SmallStore (w_objs w) ->
+  StronglySorted (fun a b => blt (e_path a) (e_path b) = true) (idx_of w) /\
+  NoDup (paths (idx_of w)) /\ Forall valid_entry (idx_of w).
+Proof.
+  intros w Hr Hc Hs. destruct (reachable_good w Hr Hc Hs) as (_ & [Hcan Hv] & _).
+  split; [exact Hcan|]. split; [apply Canonical_NoDup_paths; exact Hcan | exact Hv].
+Qed.
+
+(** ** 2. C05-T2 *)
+
+Lemma run_cmd_commit_spec : forall e msg w,
+  hoare Inv G (eq w) (run_cmd e (CCommit msg)) (fun _ w' => commit_post w w').
+Proof.
+  intros e msg w. unfold run_cmd. hsteps.
+  apply at_bind_call with (P := eq w) (R := fun x w' => w' = w /\ CtxOk w x);
+    [apply load_ctx_spec | reflexivity |].
+  intros x w' _ [-> Hctx]. apply cmd_commit_spec. exact Hctx.
+Qed.
+
+(* (a) after a successful commit the snapshot of the new HEAD commit is the
+   staging area it was made from *)
+Theorem commit_snapshot_step : forall e msg w w' out tr,
+  GoodW w -> step (ACmd e (CCommit msg)) w = (w', OOk out, tr) ->
+  w_coll w' = false -> SmallStore (w_objs w') ->
+  exists cid, am_get (w_refs w') (w_head w') = Some cid /\
+              snapshot (w_objs w') cid = Some (idx_of w) /\ idx_of w' = idx_of w.
+Proof.
+  intros e msg w w' out tr Hg Hstep Hc Hs. cbn [step] in Hstep. unfold run_m in Hstep.
+  destruct (run_cmd e (CCommit msg) (mkMS w [] None)) as [r s'] eqn:E.
+  destruct (hoare_sound Inv G _ _ _ _ w [] None r s' (run_cmd_commit_spec e msg w)
+              (GoodW_Inv w Hg) eq_refl E) as (tr0 & _ & _ & _ & _ & _ & _ & Hq).
+  destruct r as [o| |]; try discriminate Hstep. injection Hstep as <- _ _.
+  apply (Hq o eq_refl). split; assumption.
+Qed.
+
+(* (a)+(b) ... and it still is in every later world of the history *)
+Theorem commit_snapshot : forall e msg w w' out tr h,
+  GoodW w -> step (ACmd e (CCommit msg)) w = (w', OOk out, tr) ->
+  w_coll (run h w') = false -> SmallStore (w_objs (run h w')) ->
+  exists cid, am_get (w_refs w') (w_head w') = Some cid /\
+              snapshot (w_objs (run h w')) cid = Some (idx_of w).
+Proof.
+  intros e msg w w' out tr h Hg Hstep Hc Hs.
+  pose proof (run_store_ext h w' Hc) as Hext.
+  destruct (commit_snapshot_step e msg w w' out tr Hg Hstep (run_coll_false_before h w' Hc)
+              (SmallStore_ext _ _ Hext Hs)) as (cid & Hr & Hsn & _).
+  exists cid. split; [exact Hr|]. apply (snapshot_ext (w_objs w')); assumption.
+Qed.
+
+(* (c) what reset does to the staging area; no invariant is needed here *)
+Definition TI (w : world) : Prop := True.
+Definition TG (w : world) (e : effect) : Prop := True.
+
+Definition reset_target (w : world) (a : bytes) : option bytes :=
+  match reset_arg a with
+  | Some n =>
+      if N.leb n 9223372036854775807 then
+        match w_hlog w with
+        | Some hl =>
+            match parse_reflog hl with
+            | Some rs =>
+                match get_record rs (N.to_nat (N.min n (N.of_nat (length rs)))) with
+                | Some r => r_id r
+                | None => None
+                end
+            | None => None
+            end
+        | None => None
+        end
+      else None
+  | None => None
+  end.
+
+Lemma wt_put_index : forall p data w,
+  hoare TI TG (eq w) (wt_put p data) (fun _ w' => w_index w' = w_index w).
+Proof.
+  intros p data w. unfold wt_put. hsteps; try (split; exact Logic.I).
+  all: split; [exact Logic.I|]; split; [exact Logic.I|]; autorewrite with wfields; reflexivity.
+Qed.
+
+Definition reset_post (w : world) (soft : bool) (args : list bytes) (w' : world) : Prop :=
+  soft = false ->
+  exists a tid es, args = [a] /\ reset_target w a = Some tid /\
+                   snapshot (w_objs w) tid = Some es /\ idx_of w' = es.
+
+Lemma reset_post_intro : forall w soft b n hl rs r tid tc d ns w',
+  reset_arg b = Some n -> N.leb n 9223372036854775807 = true ->
+  w_hlog w = Some hl -> parse_reflog hl = Some rs ->
+  get_record rs (N.to_nat (N.min n (N.of_nat (length rs)))) = Some r -> r_id r = Some tid ->
+  get_commit (w_objs w) tid = Some tc -> get_kind (w_objs w) KTree (c_tree tc) = Some d ->
+  walk_tree (S (length (w_objs w))) (w_objs w) d = Some ns ->
+  idx_of w' = flatten [] ns -> reset_post w soft [b] w'.
+Proof.
+  intros w soft b n hl rs r tid tc d ns w' H1 H2 H3 H4 H5 H6 H7 H8 H9 H10 _.
+  exists b, tid, (flatten [] ns). split; [reflexivity|]. split; [|split; [|exact H10]].
+  - unfold reset_target. rewrite H1, H2, H3, H4, H5. exact H6.
+  - unfold snapshot. rewrite H7, H8, H9. reflexivity.
+Qed.
+
+Lemma cmd_reset_spec : forall e c soft mixed hard args w,
+  hoare TI TG (eq w) (cmd_reset e c soft mixed hard args) (fun _ w' => reset_post w soft args w').
+Proof.
+  intros. hinline. hsteps; try (split; exact Logic.I).
+  - match goal with |- hoare _ _ _ (bind (iterM _ ?es) _) _ =>
+      apply at_bind_iterM with (J := fun w' => idx_of w' = es) end.
+    + intros _. apply idx_of_set.
+    + intros en w' _ _ Hj. hsteps.
+      eapply hoare_conseq; [apply wt_put_index | intros ? _ <-; reflexivity |].
+      intros [] w'' _ Hq. cbv beta in Hq. unfold idx_of in *. rewrite Hq. exact Hj.
+    + intros w' _ Hj. hsteps. eapply reset_post_intro; eassumption.
+  - eapply reset_post_intro; try eassumption. apply idx_of_set.
+  - intros ->. cbn [orb negb andb] in *. exfalso.
+    match goal with Hb : _ || hard = false, Hg : _ || _ = true |- _ =>
+      destruct hard, mixed; cbn in Hb, Hg; discriminate end.
+Qed.
+
+(* at the level of one step *)
+Theorem reset_reads_back : forall e soft mixed hard args w w' out tr,
+  step (ACmd e (CReset soft mixed hard args)) w = (w', OOk out, tr) -> soft = false ->
+  exists a tid es, args = [a] /\ reset_target w a = Some tid /\
+                   snapshot (w_objs w) tid = Some es /\ idx_of w' = es.
+Proof.
+  intros e soft mixed hard args w w' out tr Hstep Hsoft. cbn [step] in Hstep. unfold run_m in Hstep.
+  destruct (run_cmd e (CReset soft mixed hard args) (mkMS w [] None)) as [r s'] eqn:E.
+  assert (Hspec : hoare TI TG (eq w) (run_cmd e (CReset soft mixed hard args))
+                        (fun _ w' => reset_post w soft args w')).
+  { unfold run_cmd. hsteps.
+    apply at_bind_call with (P := eq w) (R := fun _ w' => w' = w); [|reflexivity|].
+    - unfold load_ctx. hsteps; reflexivity.
+    - intros x w0 _ ->. apply cmd_reset_spec. }
+  destruct (hoare_sound TI TG _ _ _ _ w [] None r s' Hspec Logic.I eq_refl E)
+    as (tr0 & _ & _ & _ & _ & _ & _ & Hq).
+  destruct r as [o| |]; try discriminate Hstep. injection Hstep as <- _ _.
+  apply (Hq o eq_refl). exact Hsoft.
+Qed.
+
+(** C05-T2: a commit made by Goit, any later history, reset --mixed/--hard to
+    that commit: the staging area is the one the commit was made from *)
+Theorem reset_restores_commit :
+  forall e0 msg w0 w1 out0 tr0 h e soft mixed hard a w' out tr cid,
+  GoodW w0 ->
+  step (ACmd e0 (CCommit msg)) w0 = (w1, OOk out0, tr0) ->
+  am_get (w_refs w1) (w_head w1) = Some cid ->
+  w_coll (run h w1) = false -> SmallStore (w_objs (run h w1)) ->
+  step (ACmd e (CReset soft mixed hard [a])) (run h w1) = (w', OOk out, tr) -> soft = false ->
+  reset_target (run h w1) a = Some cid ->
+  idx_of w' = idx_of w0.
+Proof.
+  intros e0 msg w0 w1 out0 tr0 h e soft mixed hard a w' out tr cid Hg Hc Hhead Hcoll Hsm Hr Hsoft Ht.
+  destruct (commit_snapshot e0 msg w0 w1 out0 tr0 h Hg Hc Hcoll Hsm) as (cid' & Hh' & Hsn).
+  rewrite Hhead in Hh'. injection Hh' as <-.
+  destruct (reset_reads_back e soft mixed hard [a] _ w' out tr Hr Hsoft) as (a' & tid & es & Ha & Ht' & Hs' & Hi).
+  injection Ha as <-. rewrite Ht in Ht'. injection Ht' as <-.
+  rewrite Hsn in Hs'. injection Hs' as <-. exact Hi.
+Qed.
+
+(** ** 3. C07-T2 at command level: "nothing to commit" *)
+
+(* the guard of [cmd_commit] is exactly "the HEAD snapshot differs from the staging area" *)
+Theorem commit_guard : forall w hid cm d ns,
+  GoodW w -> get_commit (w_objs w) hid = Some cm ->
+  get_kind (w_objs w) KTree (c_tree cm) = Some d ->
+  walk_tree (S (length (w_objs w))) (w_objs w) d = Some ns ->
+  (diff_with_tree (idx_of w) ns = [] <-> snapshot (w_objs w) hid = Some (idx_of w)).
+Proof.
+  intros w hid cm d ns (_ & [Hcan Hv] & Hs & _) Hc Hk Hw.
+  destruct (walked_NsGood _ _ _ _ _ Hs Hc Hk Hw) as (its & -> & Hwf & Hcan' & _).
+  unfold snapshot. rewrite Hc, Hk, Hw, (flatten_items its Hwf).
+  rewrite (diff_nil_eq (idx_of w) its Hcan Hwf Hcan'). split.
+  - intros <-. reflexivity.
+  - intro H. injection H as H. symmetry. exact H.
+Qed.
+
+Lemma bind_getw_s : forall B (f : world -> M B) s, bind getw f s = f (ms_w s) s.
+Proof. reflexivity. Qed.
+Lemma bind_ret_s : forall A B (a : A) (f : A -> M B) s, bind (ret a) f s = f a s.
+Proof. reflexivity. Qed.
+Lemma bind_guard_s : forall B b (f : unit -> M B) s,
+  bind (guard b) f s = if b then f tt s else (Err, s).
+Proof. intros B [] f s; reflexivity. Qed.
+Lemma bind_of_opt_s : forall A B (o : option A) (f : A -> M B) s,
+  bind (of_opt o) f s = match o with Some a => f a s | None => (Err, s) end.
+Proof. intros A B [a|] f s; reflexivity. Qed.
+
+Ltac ms :=
+  repeat (rewrite ?bind_assoc;
+          first [rewrite bind_getw_s | rewrite bind_ret_s | rewrite bind_guard_s | rewrite bind_of_opt_s]);
+  cbn [ms_w x_l x_g x_headc x_pats].
+
+Theorem commit_nothing_refused : forall e msg w hid,
+  GoodW w -> am_get (w_refs w) (w_head w) = Some hid ->
+  snapshot (w_objs w) hid = Some (idx_of w) ->
+  step (ACmd e (CCommit msg)) w = (w, OErr, []).
+Proof.
+  intros e msg w hid Hg Hh Hsn.
+  assert (Hrefs : is_nil (w_refs w) = false).
+  { destruct (w_refs w); [discriminate Hh | reflexivity]. }
+  pose proof Hsn as Hsn'. unfold snapshot in Hsn'.
+  destruct (get_commit (w_objs w) hid) as [cm|] eqn:Ec; [|discriminate Hsn'].
+  destruct (get_kind (w_objs w) KTree (c_tree cm)) as [d|] eqn:Ek; [|discriminate Hsn'].
+  destruct (walk_tree (S (length (w_objs w))) (w_objs w) d) as [ns|] eqn:Ew; [|discriminate Hsn'].
+  clear Hsn'.
+  pose proof (proj2 (commit_guard w hid cm d ns Hg Ec Ek Ew) Hsn) as Hd.
+  cbn [step]. unfold run_m, run_cmd. ms.
+  destruct (w_inited w); [|reflexivity].
+  unfold load_ctx. ms.
+  destruct (cfg_of (w_gcfg w)) as [g|]; [|reflexivity]. ms.
+  destruct (cfg_of (w_lcfg w)) as [l|]; [|reflexivity].
+  rewrite Hh. ms. rewrite Ec. ms.
+  destruct (ign_load (am_get (w_files w) (str ".goitignore"))) as [pats|]; [|reflexivity]. ms.
+  unfold cmd_commit. ms.
+  destruct (user_set l g); [|reflexivity]. ms.
+  rewrite Hrefs. unfold head_tree_nodes. ms. rewrite Ek. ms. rewrite Ew. ms. rewrite Hd.
+  reflexivity.
+Qed.
+
+(* conversely: when the snapshot of HEAD differs from the staging area the guard passes *)
+Corollary commit_guard_passes : forall w hid cm d ns,
+  GoodW w -> get_commit (w_objs w) hid = Some cm ->
+  get_kind (w_objs w) KTree (c_tree cm) = Some d ->
+  walk_tree (S (length (w_objs w))) (w_objs w) d = Some ns ->
+  snapshot (w_objs w) hid <> Some (idx_of w) ->
+  negb (is_nil (diff_with_tree (idx_of w) ns)) = true.
+Proof.
+  intros w hid cm d ns Hg Hc Hk Hw Hne.
+  destruct (diff_with_tree (idx_of w) ns) as [|x l] eqn:E; [|reflexivity].
+  exfalso. apply Hne. apply (proj1 (commit_guard w hid cm d ns Hg Hc Hk Hw) E).
+Qed.
